@@ -11,7 +11,9 @@ ROLES = {
           "importbind", "g_assign", "g_read", "nl_assign", "nl_read",
           # compound roles
           "param_assign", "param_aug", "assign_rebind_after", "late_bind", "param_walrus", "nl_aug", "g_aug", "fortarget_rebind",
-          "destructure", "assign_in_branch", "walrus_in_comp", "kwparam_f", "walrus_while_test", "walrus_for_iter"],
+          "destructure", "assign_in_branch", "walrus_in_comp", "kwparam_f", "walrus_while_test", "walrus_for_iter",
+          # every other parameter kind of a def (captured / rebound by the scopes below)
+          "posonlyparam_f", "posonly_assign_f", "varparam_f", "kwvarparam_f", "kwparamdef_f"],
     "C": ["none", "read", "assign", "aug", "fortarget", "comptarget", "defbind", "importbind", "g_assign", "g_read",
           "nl_assign", "nl_read", "preread_assign", "assign_rebind_after", "destructure", "nl_aug", "walrus_while_test", "walrus_for_iter"],
     "L": ["none", "read", "param", "paramdef", "walrus", "walrus_in_comp", "param_walrus_in_comp",
@@ -41,6 +43,7 @@ def bind_lines(role, sid):
         "none": [], "read": [], "g_read": ["global x"], "nl_read": ["nonlocal x"],
         "assign": ["x = %d" % v], "preread_assign": ['log(%d,"pre",x)' % sid, "x = %d" % v],
         "aug": ["x = %d" % v, "x += 1"], "walrus": ['log(%d,"w",(x := %d))' % (sid, v)],
+        "posonlyparam_f": [], "varparam_f": [], "kwvarparam_f": [], "kwparamdef_f": [], "posonly_assign_f": ["x = (x, %d)" % v],
         "param": [], "paramdef": [], "kwparam_f": [], "kwparam": [], "kwparamdef": [], "posonlyparam": [], "varparam": [], "kwvarparam": [],
         "fortarget": ["for x in [%d]:" % v, '    log(%d,"in",x)' % sid],
         "fortarget_rebind": ["for x in [%d, %d]:" % (v, v + 1), "    x = x + 100", '    log(%d,"in",x)' % sid],
@@ -64,9 +67,12 @@ def bind_lines(role, sid):
 
 PARAM_ROLES = {"param": "x", "paramdef": "x=x", "param_assign": "x", "param_aug": "x", "param_walrus": "x",
                "param_walrus_in_comp": "x", "kwparam": "*, x", "kwparamdef": "*, x=x", "posonlyparam": "x, /",
-               "varparam": "*x", "kwvarparam": "**x", "kwparam_f": "*, x"}
+               "varparam": "*x", "kwvarparam": "**x", "kwparam_f": "*, x",
+               "posonlyparam_f": "x, /, _o=0", "posonly_assign_f": "_o, x, /", "varparam_f": "_o, *x", "kwvarparam_f": "_o=0, **x",
+               "kwparamdef_f": "*, x=x"}
 CALL_ARGS = {"param": "1", "param_assign": "1", "param_aug": "1", "param_walrus": "1", "param_walrus_in_comp": "1",
-             "kwparam": "x=1", "posonlyparam": "1", "varparam": "1, 2", "kwvarparam": "a=1", "kwparam_f": "x=1"}
+             "kwparam": "x=1", "posonlyparam": "1", "varparam": "1, 2", "kwvarparam": "a=1", "kwparam_f": "x=1",
+             "posonlyparam_f": "1", "posonly_assign_f": "0, 1", "varparam_f": "0, 1, 2", "kwvarparam_f": "a=1, b=2", "kwparamdef_f": ""}
 
 
 def reads_after(role):
